@@ -55,6 +55,23 @@ type Subject struct {
 
 	Scalars []Scalar
 	Hint    *Hint
+
+	// WrapSign (optional, subjects with contexts): an independent reference signer that accepts a context of
+	// any length and hashes its length octet modulo 256 - the only signature an over-long context could ever
+	// "have". It is bound to the real code on every base case (must reproduce the honest signature bytes).
+	WrapSign func(seed, msg []byte, ctx string) []byte
+}
+
+// LongCtxLens are the over-long context lengths offered with related signatures.
+var LongCtxLens = []int{256, 257, 511, 512}
+
+// LongCtx is the fixed over-long context of n bytes.
+func LongCtx(n int) string {
+	b := make([]byte, n)
+	for i := range b {
+		b[i] = byte(7*i + 3)
+	}
+	return string(b)
 }
 
 // Plan fixes the finite space enumerated for a subject.
@@ -333,6 +350,56 @@ func (x *runner) base(seeds [][]byte, si, ml, ci, bi int) {
 			x.eval(base, seed, kp, alt{class: "badctx-verify", name: fmt.Sprintf("own-sig-bad%d", bj), msg: msg, sig: sg, ctx: bc})
 		default:
 			r.Count("badctx_sign_refused", 1)
+		}
+	}
+
+	// over-long contexts with *related* signatures: only one octet of the context length is hashed, so a verifier
+	// that lets a context of L >= 256 bytes through frames (m, C) like some legal (m', c') - exactly (C[k:]||m, C[:k])
+	// with k = L mod 256 where the message directly follows the context (ML-DSA), and like the signature of a signer
+	// that wrapped the octet (EdDSA, where R||A sit in between). Variants of a truncating / saturating verifier too.
+	if len(s.Contexts) > 0 {
+		if s.WrapSign != nil {
+			var ws []byte
+			if pn, what := verifmc.Try(func() { ws = s.WrapSign(seed, msg, ctx) }); pn || !bytes.Equal(ws, sig) {
+				r.Vacuous(fmt.Sprintf("%s: the reference signer does not reproduce the honest signature of %s (%s)", s.Name, base, what))
+			} else {
+				r.Count("wrapsign_bound_to_real_signer", 1)
+			}
+		}
+		for _, L := range LongCtxLens {
+			C := LongCtx(L)
+			k := L % 256
+			_, refused, crash := x.signTry(kp.sk, msg, C)
+			r.Distinct(s.Name, base, "longctx-sign", L)
+			if crash != "" {
+				x.viol("longctx-sign", "panic:"+verifmc.PanicClass(crash), fmt.Sprintf("%slongctx-sign:len%d", base, L), fmt.Sprintf("%s: signing under a %d-byte context crashed: %s", base, L, crash), nil, seed)
+			} else if !refused {
+				x.viol("longctx-sign", "accepted", fmt.Sprintf("%slongctx-sign:len%d", base, L), fmt.Sprintf("%s: signing under a %d-byte context was not refused", base, L), nil, seed)
+			} else {
+				r.Count("longctx_sign_refused", 1)
+			}
+			for _, v := range []struct {
+				name, ctx string
+				msg       []byte
+			}{
+				{"wrap", C[:k], append([]byte(C[k:]), msg...)},
+				{"trunc255", C[:255], msg},
+				{"truncmod", C[:k], msg},
+				{"saturate", C[:255], append([]byte(C[255:]), msg...)},
+			} {
+				sg, refused, crash := x.signTry(kp.sk, v.msg, v.ctx)
+				if crash != "" || refused || sg == nil {
+					r.Count("longctx_related_not_signable", 1) // e.g. Ed25519ctx refuses the empty context
+					continue
+				}
+				x.eval(base, seed, kp, alt{class: "longctx-related", name: fmt.Sprintf("len%d-%s", L, v.name), msg: msg, sig: sg, ctx: C})
+			}
+			if s.WrapSign != nil {
+				var ws []byte
+				if pn, _ := verifmc.Try(func() { ws = s.WrapSign(seed, msg, C) }); !pn && ws != nil {
+					x.eval(base, seed, kp, alt{class: "longctx-wrapsigned", name: fmt.Sprintf("len%d", L), msg: msg, sig: ws, ctx: C})
+				}
+			}
 		}
 	}
 
